@@ -5,6 +5,7 @@ Model: Rmk/Impl/Virtual.lean (mixed trees `MNode` with virtual nodes served by a
 `m` materialises to `n`).
 -/
 import Rmk.Proofs.VirtualLaws
+import Rmk.Proofs.VirtualViewLaws
 namespace Rmk.C20
 open Rmk Rmk.Virtual Rmk.VirtualLaws
 
@@ -47,5 +48,28 @@ theorem memo_is_sound (src : Src) (tbl : Table) (h : TableOk src tbl) (H : Hash)
 theorem queries_bounded (src : Src) (m : MNode) (p : List Bool) :
     (getPathLog src m p).2.length ≤ p.length ∧ ((getPathLog src m p).2.map (·.1)).Nodup :=
   ⟨getPathLog_length src m p, getPathLog_nodup src m p⟩
+
+/-! ### the VIEW level: reads through a view over a lazily loaded backing
+
+`Rmk/Impl/VirtualView.lean` mirrors the view reads of the model (`readVal`, `readElem`, `viewLen`, `sliceRead`) line by
+line over mixed trees: `getter` becomes `getPathM` (a virtual node asks the source), `merkle_root()` the stored root. -/
+
+/-- EVERY VIEW READ (complete read, `view[i]`, `len(view)`, in-range slices) over a mixed tree that materialises to `n`
+    — some nodes ordinary, some virtual, at any positions — gives exactly what it gives over `n`: the same value or the
+    same failure, for every type (no hypothesis on `t`, on the value or on the shape of the tree). -/
+theorem view_reads (H : Hash) (src : Src) (t : Ty) (m : MNode) (n : Node) (h : Mat H src m n) :
+    readValM H src t m = Impl.readVal H t n ∧
+    (∀ i, readElemM H src t m i = Impl.readElem H t n i) ∧
+    viewLenM H src t m = Impl.viewLen H t n ∧
+    (∀ a b, sliceReadM H src t m a b = Impl.sliceRead H t n a b) :=
+  ⟨VirtualViewLaws.readValM_mat H src t m n h, fun i => VirtualViewLaws.readElemM_mat h t i,
+    VirtualViewLaws.viewLenM_mat h t, fun a b => VirtualViewLaws.sliceReadM_mat h t a b⟩
+
+/-- in particular over the wholly virtual node `VirtualNode(root, src)` whose source serves `n` -/
+theorem view_reads_wholly_virtual (H : Hash) (src : Src) (t : Ty) (n : Node) (hs : Serves H src n) :
+    readValM H src t (.virt (n.root H)) = Impl.readVal H t n ∧
+    (∀ i, readElemM H src t (.virt (n.root H)) i = Impl.readElem H t n i) ∧
+    viewLenM H src t (.virt (n.root H)) = Impl.viewLen H t n :=
+  VirtualViewLaws.virtual_view_reads t hs
 
 end Rmk.C20
